@@ -149,7 +149,7 @@ def s2_s3_update(ctx):
     for p in nps:
         is_open = None
         for c, v, _ in p.conds:
-            if c[0] == 'call' and c[1] == ('fn', OPEN_TEST):
+            if c[0] == 'call' and c[1][0] == 'fn' and c[1][1].endswith('.is_open_at_datetime'):
                 t = c[2][1] if len(c[2]) > 1 else None
                 if t == V('dt'):
                     is_open = v
@@ -173,12 +173,27 @@ def s2_s3_update(ctx):
             continue
         open_paths += 1
         # ---- the drain
-        if not ctx.require(len(gets) == 1, 'C04.S3', 'one dequeue site in the open branch', gets[0][0].site if gets else fn.site(), '%d' % len(gets), key='C04.S3|get-sites'):
+        if len(gets) != 1:
+            # the dequeue is not one direct site under update's own loops (a draining generator, deferred callables, ...): nothing is claimed either way
+            ctx.undecided('C04.S3', 'one dequeue site in the open branch', gets[0][0].site if gets else fn.site(), '%d direct dequeue sites' % len(gets))
             continue
         g, gloops, gconds = gets[0]
         outer = gloops[0][0] if gloops else None
-        ok = outer is not None and fmt(outer.iter) in ('self.portfolios', 'self.portfolios.keys()', 'self.open_orders', 'self.open_orders.keys()',
-                                                      'self.open_orders.items()', 'self.portfolios.items()')
+
+        def narrowed(t):
+            return any(s_[0] == 'slice' or (s_[0] == 'comp' and any(g_[2] for g_ in s_[3])) or
+                       (s_[0] == 'call' and s_[1] in (('ext', 'itertools.islice'), ('ext', 'builtins.filter'), ('ext', 'itertools.takewhile'))) for s_ in T.subterms(t))
+        full = ('self.portfolios', 'self.portfolios.keys()', 'self.open_orders', 'self.open_orders.keys()', 'self.open_orders.items()', 'self.portfolios.items()',
+                'self.portfolios.values()', 'self.open_orders.values()')
+        it_txt = fmt(outer.iter) if outer is not None else ''
+        for w_ in ('ENUMERATE(', 'LIST(', 'TUPLE('):
+            if it_txt.startswith(w_) and it_txt.endswith(')'):
+                it_txt = it_txt[len(w_):-1]
+        ok = outer is not None and it_txt in full
+        if not ok and not (outer is not None and narrowed(outer.iter)):
+            ctx.undecided('C04.S3', 'the drain visits the queue of every portfolio', outer.site if outer else g.site,
+                          'unrecognised iteration: %s' % (fmt(outer.iter)[:120] if outer else None))
+            continue
         ctx.require(ok, 'C04.S3', 'the drain visits the queue of every portfolio', outer.site if outer else g.site,
                     'outer loop iterates %s' % (fmt(outer.iter) if outer else None), key='C04.S3|drain-outer')
         if outer is not None:
@@ -188,21 +203,23 @@ def s2_s3_update(ctx):
         if len(gloops) >= 2:
             inner = gloops[1][0]
             t = fmt(inner.iter) if inner.iter is not None else ''
-            ok = (not inner.is_for) and ('.empty()' in t or t in ('True', 'true'))
-            ctx.require(ok, 'C04.S3', 'each queue is drained until it is empty', inner.site, 'inner loop test: %s' % t, key='C04.S3|drain-until-empty')
+            qtxt = fmt(g.loc)
+            ok = ((not inner.is_for) and ('.empty()' in t or t in ('True', 'true'))) or (inner.is_for and t in ('RANGE(%s.qsize())' % qtxt, 'RANGE(0, %s.qsize())' % qtxt))
+            if not ok and not (inner.is_for and t.startswith('RANGE(')):
+                ctx.undecided('C04.S3', 'each queue is drained until it is empty', inner.site, 'inner loop test: %s' % t[:120])
+            else:
+                ctx.require(ok, 'C04.S3', 'each queue is drained until it is empty', inner.site, 'inner loop test: %s' % t, key='C04.S3|drain-until-empty')
             extra = [c for c in gconds if c not in [x for x in p.conds] and '.empty()' not in fmt(c[0])]
             ctx.require(not extra, 'C04.S3', 'every queued order is taken unconditionally', g.site, [fmt(c[0]) for c in extra], key='C04.S3|drain-cond')
         else:
             ctx.violation('C04.S3', 'each queue is drained until it is empty', g.site, 'the dequeue is not inside a per-queue loop (one order per update at most)',
                           key='C04.S3|drain-until-empty')
         # ---- sort and execution loop
-        if not ctx.require(len(execs) == 1, 'C04.S3', 'one execution site in the open branch', execs[0][0].site if execs else fn.site(), '%d' % len(execs),
-                           key='C04.S3|exec-sites'):
+        if len(execs) != 1 or len(execs[0][1]) != 1:
+            ctx.undecided('C04.S3', 'orders are executed at one site, in one loop over the drained batch', execs[0][0].site if execs else fn.site(),
+                          '%d execution sites' % len(execs))
             continue
         x, xloops, xconds = execs[0]
-        if not ctx.require(len(xloops) == 1, 'C04.S3', 'orders are executed in one loop over the drained batch', x.site, '%d enclosing loops' % len(xloops),
-                           key='C04.S3|exec-loop'):
-            continue
         lp, body = xloops[0]
         for b in lp.paths:
             if b.outcome in ('raise',):
@@ -212,11 +229,12 @@ def s2_s3_update(ctx):
                         '%d executions, outcome %s' % (len(n), b.outcome), key='C04.S3|exec-once')
         it = lp.iter
         batch = None
-        if it[0] == 'call' and it[1] == ('ext', 'SORTED'):
+        srt_key = rev = None
+        sort_site = lp.site
+        if it[0] == 'call' and it[1] == ('ext', 'SORTED') and it[2]:
             batch = it[2][0]
             kws = dict(it[3])
             srt_key, rev = kws.get('key'), kws.get('reverse')
-            sort_site = lp.site
         else:
             # in-place list.sort(key=...)
             srt = [e for e in p.flat_events() if e.kind == 'call' and e.callee == ['meth:sort']]
@@ -224,66 +242,126 @@ def s2_s3_update(ctx):
                 batch = _strip_sort(it)
                 srt_key, rev = kw(srt[0], 'key'), kw(srt[0], 'reverse')
                 sort_site = srt[0].site
+        if batch is None and it[0] == 'call' and it[1] == ('ext', 'ZIP') and len(it[2]) >= 2:
+            # parallel lists: the orders and their portfolio tags must go through the sort TOGETHER
+            def sorted_(t):
+                return (t[0] == 'call' and t[1] in (('ext', 'SORTED'), ('ext', 'MUTATED_sort'))) or any(e_.kind == 'call' and e_.callee == ['meth:sort'] and
+                                                                                                         T.teq(e_.d.get('recv') or ZERO, _strip_sort(t)) for e_ in p.flat_events())
+            with_orders = [t for t in it[2] if any(T.teq(s_, g.value) for s_ in T.subterms(t))]
+            others = [t for t in it[2] if t not in with_orders]
+            if with_orders and others and any(sorted_(t) for t in with_orders) and not all(sorted_(t) for t in others):
+                ctx.violation('C04.S3', 'each order is executed against its own portfolio at the update time', lp.site,
+                              'the orders are sorted but the parallel list of their portfolios is not: after the sort an order is paired with another order\'s portfolio',
+                              key='C04.S3|exec-args')
+                continue
+        if batch is None:
+            # the loop runs over the drained list itself: it was never ordered - or over something this rule does not read (grouping objects, chained buckets)
+            app0 = [t for t in T.subterms(it) if t[0] == 'call' and t[1] == ('ext', 'APPENDED')]
+            plain = app0 and it[0] in ('accum', 'call') and not any(s_[0] == 'call' and s_[1][0] == 'ext' and ('chain' in s_[1][1] or 'groupby' in s_[1][1]) for s_ in T.subterms(it))
+            if plain and not any(e.kind == 'call' and e.callee == ['meth:sort'] for e in p.flat_events()):
+                ctx.violation('C04.S5', 'the batch is sorted before execution', lp.site, 'loop iterates %s' % fmt(it)[:160], key='C04.S5|sorted')
             else:
-                srt_key = rev = None
-                sort_site = lp.site
-        if not ctx.require(batch is not None, 'C04.S5', 'the batch is sorted before execution', lp.site, 'loop iterates %s' % fmt(it)[:160], key='C04.S5|sorted'):
+                ctx.undecided('C04.S5', 'the batch is sorted before execution', lp.site, 'loop iterates %s' % fmt(it)[:160])
             continue
-        # what one batch element is: a pair or a two-field record holding the dequeued order and the portfolio it came from
-        from ..symex import NT_FIELDS
+        # what one batch element is: a pair or a record holding the dequeued order and the portfolio it came from (possibly more)
         app = [t for t in T.subterms(batch) if t[0] == 'call' and t[1] == ('ext', 'APPENDED')]
         ev_ = app[0][2][1] if len(app) == 1 else None
-        order_forms, tag_forms, ptag = None, None, None
         el = ('elem', it, lp.id)
-        if ev_ is not None and ev_[0] == 'tuple' and len(ev_[1]) == 2:
-            for i_ in (0, 1):
-                if T.teq(ev_[1][i_], g.value):
-                    order_forms, tag_forms, ptag = [('sub', el, num(i_))], [('sub', el, num(1 - i_))], ev_[1][1 - i_]
-        elif ev_ is not None and ev_[0] == 'new' and ev_[1] in NT_FIELDS and len(ev_[2]) == 2:
-            fs = NT_FIELDS[ev_[1]]
-            d_ = dict(ev_[2])
-            for i_, f_ in enumerate(fs):
-                if T.teq(d_[f_], g.value):
-                    o_ = fs[1 - i_]
-                    order_forms, tag_forms, ptag = [('attr', el, f_), ('sub', el, num(i_))], [('attr', el, o_), ('sub', el, num(1 - i_))], d_[o_]
-        # key: direction of the order component, ascending -> sells (-1) before buys (+1); stable sort keeps submission order per side
-        okk = False
-        if srt_key is not None and order_forms:
-            if srt_key[0] == 'lambda' and srt_key[1] == 1 and srt_key[2][0] == 'attr' and srt_key[2][2] == 'direction':
-                exp = T.replace(srt_key[2][1], lambda t: el if t == ('bv', 0) else None)
-                okk = any(T.teq(exp, o_) for o_ in order_forms)
-            elif srt_key[0] == 'call' and srt_key[1] == ('ext', 'operator.attrgetter') and len(srt_key[2]) == 1 and srt_key[2][0][0] == 'str':
-                okk = any(o_[0] == 'attr' and srt_key[2][0][1] == o_[2] + '.direction' for o_ in order_forms)
-        ctx.require(okk, 'C04.S5', 'the sort key is exactly the direction of the order (stable sort: sells first, submission order within a side)',
-                    sort_site, 'key=%s' % (fmt(srt_key) if srt_key else None), key='C04.S5|key')
-        ctx.require(rev is None or rev == T.FALSE, 'C04.S5', 'ascending sort (sells, direction -1, first)', sort_site, 'reverse=%s' % (fmt(rev) if rev else None),
-                    key='C04.S5|reverse')
-        # the sorted list is exactly the drained list: [] extended only by (portfolio, get()) pairs / records
-        okb = len(app) == 1 and order_forms is not None
-        roots = [t for t in T.subterms(batch) if t[0] == 'list' and t[1] == ()]
+        comps = {}        # component accessor term(s) -> component value
+        if ev_ is not None and ev_[0] == 'tuple':
+            for i_, v_ in enumerate(ev_[1]):
+                comps[('sub', el, num(i_))] = v_
+        elif ev_ is not None and ev_[0] == 'new':
+            from ..symex import NT_FIELDS
+            for i_, (f_, v_) in enumerate(ev_[2]):
+                comps[('attr', el, f_)] = v_
+            for i_, f_ in enumerate(NT_FIELDS.get(ev_[1], ())):
+                comps[('sub', el, num(i_))] = dict(ev_[2]).get(f_)
+        elif ev_ is not None and T.teq(ev_, g.value):
+            comps[el] = ev_
+        order_forms = [a_ for a_, v_ in comps.items() if v_ is not None and T.teq(v_, g.value)]
         keyed = [t for t in T.subterms(batch) if t[0] == 'call' and t[1] == ('ext', 'SETITEM') and len(t[2]) == 3
                  and any(T.teq(s_, g.value) for s_ in T.subterms(t[2][2]))]
-        if not app and keyed:
-            k = keyed[0][2][1]
-            from_order = any(T.teq(s_, g.value) for s_ in T.subterms(k))
-            # a keyed batch holds one entry per key: it keeps every dequeued order only if no two pending orders can share the key.
-            # A key computed from the order's own (caller-settable) fields gives no such guarantee: the later order silently replaces the earlier one.
-            if from_order:
-                ctx.violation('C04.S3', 'the executed batch keeps every dequeued order (nothing dropped or added)', g.site,
-                              'the batch is a mapping keyed by %s: two pending orders with equal keys collapse into one and the other is dropped' % fmt(k)[:120],
-                              key='C04.S3|batch')
-                continue
+        if not app and keyed and any(T.teq(s_, g.value) for s_ in T.subterms(keyed[0][2][1])):
+            # a keyed batch holds one entry per key: a key computed from the order's own (caller-settable) fields lets a later order silently replace an earlier one
+            ctx.violation('C04.S3', 'the executed batch keeps every dequeued order (nothing dropped or added)', g.site,
+                          'the batch is a mapping keyed by %s: two pending orders with equal keys collapse into one and the other is dropped' % fmt(keyed[0][2][1])[:120],
+                          key='C04.S3|batch')
+            continue
         if not app:
             ctx.undecided('C04.S3', 'the executed batch is built by appending the dequeued orders to a fresh list', g.site,
                           'unrecognised construction of the batch: %s' % fmt(batch)[:200])
             continue
-        ctx.require(okb and len(roots) >= 1, 'C04.S3', 'the executed batch is exactly the list of dequeued orders (nothing dropped or added)', g.site,
+        if not order_forms:
+            ctx.violation('C04.S3', 'the executed batch is exactly the list of dequeued orders (nothing dropped or added)', g.site,
+                          'batch elements do not carry the dequeued order: %s' % fmt(ev_)[:160] if ev_ else 'no element', key='C04.S3|batch')
+            continue
+        # the portfolio the order was queued for: the key of the queue it was taken from
+        qkey = g.loc[2] if g.loc[0] == 'sub' else None
+        tag_forms = [a_ for a_, v_ in comps.items() if v_ is not None and qkey is not None and T.teq(v_, qkey)]
+        roots = [t for t in T.subterms(batch) if t[0] == 'list' and t[1] == ()]
+        ctx.require(len(app) == 1 and len(roots) >= 1, 'C04.S3', 'the executed batch is exactly the list of dequeued orders (nothing dropped or added)', g.site,
                     'batch = %s' % fmt(batch)[:200], key='C04.S3|batch')
-        if okb:
-            ctx.require(T.teq(g.loc, ('sub', A('self', 'open_orders'), ptag)), 'C04.S3', 'each order is tagged with the portfolio whose queue it came from', g.site,
-                        key='C04.S3|tag')
-        ok = bool(order_forms) and x.args.get('portfolio_id') in tag_forms and x.args.get('order') in order_forms and x.args.get('dt') == V('dt')
-        ctx.require(ok, 'C04.S3', 'each order is executed against its own portfolio at the update time', x.site, {k: fmt(v)[:60] for k, v in x.args.items()},
+        ctx.require(bool(tag_forms), 'C04.S3', 'each order is tagged with the portfolio whose queue it came from', g.site,
+                    'element %s, queue key %s' % (fmt(ev_)[:100], fmt(qkey) if qkey else None), key='C04.S3|tag')
+        # ---- the sort key applied to one element must be the direction of its order (ascending: sells -1 before buys +1; stable: submission order per side)
+        def key_of(kf):
+            """value of the key function on the element `el`, as a term (or None)"""
+            if kf is None:
+                return None
+            if kf[0] == 'lambda' and kf[1] == 1:
+                return T.replace(kf[2], lambda t: el if t == ('bv', 0) else None)
+            if kf[0] == 'call' and kf[1] == ('ext', 'operator.attrgetter') and kf[2] and all(z[0] == 'str' for z in kf[2]):
+                def chain(spec):
+                    t = el
+                    for part in spec.split('.'):
+                        t = ('attr', t, part)
+                    return t
+                vals = [chain(z[1]) for z in kf[2]]
+                return vals[0] if len(vals) == 1 else ('tuple', tuple(vals))
+            if kf[0] == 'call' and kf[1] == ('ext', 'operator.itemgetter') and kf[2]:
+                vals = [('sub', el, z) for z in kf[2]]
+                return vals[0] if len(vals) == 1 else ('tuple', tuple(vals))
+            if kf[0] == 'fn' and kf[1] in ctx.M.funcs:
+                kfn = ctx.M.funcs[kf[1]]
+                if len(kfn.pos_params) == 1:
+                    kps = [q for q in summarise(ctx, kfn, policy=default_policy, args={kfn.pos_params[0]: ev_}) if q.outcome == 'return']
+                    if len(kps) == 1:
+                        # expressed on the element value itself: map component values back to accessors
+                        return ('on-value', kps[0].value)
+            return None
+        kv = key_of(srt_key)
+
+        def norm_acc(t):
+            # attribute/index access into the element value -> the component value
+            if ev_ is None:
+                return t
+            def f(z):
+                if z in comps and comps[z] is not None:
+                    return comps[z]
+                return None
+            return T.replace(t, f)
+        if kv is None:
+            ctx.undecided('C04.S5', 'the sort key is exactly the direction of the order', sort_site, 'key=%s' % (fmt(srt_key)[:120] if srt_key else None))
+        else:
+            want = ('attr', g.value, 'direction')
+            got = kv[1] if kv[0] == 'on-value' else norm_acc(kv)
+            parts = list(got[1]) if got[0] == 'tuple' else [got]
+            head_ok = bool(parts) and T.teq(parts[0], want)
+            # tie-breakers that follow the direction: harmless only if they reproduce the drain order (enumeration index of the portfolio loop, a running position)
+            extras_bad = [q for q in parts[1:] if any(T.teq(s_, g.value) for s_ in T.subterms(q))]
+            extras_unknown = [q for q in parts[1:] if q not in extras_bad and not (qkey is not None and any(T.teq(s_, qkey) or (s_[0] == 'elem' and outer is not None and s_[-1] == outer.id) for s_ in T.subterms(q)))]
+            if head_ok and not parts[1:]:
+                ctx.holds('C04.S5', 'the sort key is exactly the direction of the order (stable sort: sells first, submission order within a side)', sort_site)
+            elif not head_ok or extras_bad:
+                ctx.violation('C04.S5', 'the sort key is exactly the direction of the order (stable sort: sells first, submission order within a side)', sort_site,
+                              'key=%s' % fmt(srt_key)[:160], key='C04.S5|key')
+            else:
+                ctx.undecided('C04.S5', 'the sort key is the direction of the order; further components only reproduce the drain order', sort_site, 'key=%s' % fmt(srt_key)[:160])
+        ctx.require(rev is None or rev == T.FALSE, 'C04.S5', 'ascending sort (sells, direction -1, first)', sort_site, 'reverse=%s' % (fmt(rev) if rev else None),
+                    key='C04.S5|reverse')
+        okx = x.args.get('order') in order_forms and x.args.get('dt') == V('dt') and (x.args.get('portfolio_id') in tag_forms)
+        ctx.require(okx, 'C04.S3', 'each order is executed against its own portfolio at the update time', x.site, {k: fmt(v)[:60] for k, v in x.args.items()},
                     key='C04.S3|exec-args')
         ctx.sample({'rule': 'C04.S3/S5', 'batch': fmt(batch)[:200], 'sort_key': fmt(srt_key) if srt_key else None})
     ctx.require(open_paths >= 1 and closed_paths >= 1, 'C04.S2', 'update has an in-hours and an out-of-hours path', fn.site(),
